@@ -247,6 +247,41 @@ def c05(ctx):
                      "the operators of MidiInts.tla.  distinct_nontrivial = rows judged.")
 
 
+# ----------------------------------------------------------------------------- C06 / C09
+
+def c06(ctx):
+    shortmsg_theorems(ctx)
+    d, f, n = run_table(ctx, "factory", per=16384)
+    table_canary(ctx, d, "factory", lambda rows, rng: _corrupt_at(rows, rng, lambda r: len(r) == 35 and r[6] == 0, 8 + 14))
+    finish_pure(ctx, "rows: every argument tuple of the 19 named constructors (thorough: complete - 4 x 2^18 three-argument "
+                     "tuples, 16 x 16384 pitch bends, all positions / frames / songs; quick: boundary product + seeded random) "
+                     "for RawShortMessage and StructuredShortMessage, the three generic constructors x all 23 types (panic "
+                     "column), every test_util shorthand with primitive arguments including out-of-range ones; row = panic "
+                     "flag + full accessor vector, judged against NamedBytes / Obs / Canon.  distinct_nontrivial = rows judged.",
+                exhaustive=True)
+
+
+def _corrupt_at(rows, rng, pred, col):
+    cand = [i for i, r in enumerate(rows) if pred(r)]
+    if not cand:
+        return None
+    i = rng.choice(cand)
+    rows[i][col] = (rows[i][col] + 1) % 128
+    return i
+
+
+def c09(ctx):
+    run_mc_pure(ctx, "MC_PnMsg", {}, ["Inv"], tag="MC_PnMsg")
+    d, f, n = run_table(ctx, "pnmsg", per=16384)
+    table_canary(ctx, d, "pnmsg", lambda rows, rng: _corrupt_at(rows, rng, lambda r: len(r) == 27, 14 + rng.choice([1, 2, 4, 5, 7, 8])))
+    finish_pure(ctx, "rows: 8 constructors x accessors x to_short_messages in both byte orders x both factories x the array "
+                     "conversion.  Enumerated set (the full 10^10 product is NOT claimed): every third (thorough: every) number "
+                     "x boundary values, all 128 / every fifth (thorough: every) 14-bit value x boundary numbers, all 16 "
+                     "channels, plus 60k (thorough: 1M) seeded random points of the full product; the encoder is a product of "
+                     "independent slices (number, value, channel, kind).  Judged against PnEncode.  "
+                     "distinct_nontrivial = rows judged.")
+
+
 def replay(ctx, path):
     """Re-judges the rows stored in a table replay file against the CURRENT code: the inputs of
     each stored row are re-run through the harness."""
@@ -266,4 +301,4 @@ def replay(ctx, path):
     return 1 if bad else 0
 
 
-PROPS = {"C01": c01, "C02": c02, "C03": c03, "C04": c04, "C05": c05}
+PROPS = {"C01": c01, "C02": c02, "C03": c03, "C04": c04, "C05": c05, "C06": c06, "C09": c09}
